@@ -174,6 +174,8 @@ class WalkerCall(Contract):
     path = PATH
     qualname = "_AddOrRemoveNotifier.__call__"
     properties = ("C09", "C19")
+    extra_properties = ("C12", "C08")
+    undecided_probe = dict(harness="observe", family="maintainer_failure")
     assumptions = ("A-PY", "A-UNDO", "the four steps are used through their contracts (each records what it does)")
 
     def configure(self, cx, I, ov):
@@ -224,7 +226,14 @@ class WalkerCall(Contract):
                 "_add_or_remove_notifiers", "_add_or_remove_maintainers", "_add_or_remove_children_notifiers",
                 "_add_or_remove_extra_graphs"]))),
                 ("post:undo-records-cleared", z3.And(*[seq_of_field(st, info["self_ref"], f) == EMPTY_SEQ for f in
-                                                       (["_processed"] + (["_walked"] if self.has_walked else []))]))]
+                                                       (["_processed"] + (["_walked"] if self.has_walked else []))])),
+                # C12 / C08: on every observable the change handler's notifier precedes the maintainer (both the C and the
+                # Python notifier loops stop at the first notifier that raises): a maintainer that fails while re-hooking the
+                # nested part must not hide the change from the handler -- a cached property would stay stale, unannounced
+                ("post:when-adding-the-own-notifiers-are-attached-before-the-maintainers", z3.Or(z3.Bool("remove"), z3.BoolVal(
+                    [n for (n, _f) in steps].index("_add_or_remove_notifiers") < [n for (n, _f) in steps].index("_add_or_remove_maintainers")
+                    if "_add_or_remove_notifiers" in [n for (n, _f) in steps] and "_add_or_remove_maintainers" in [n for (n, _f) in steps] else False)),
+                 dict(steps=str([n for (n, _f) in steps])), ("C12", "C08", "C09"))]
         x = z3.Const("x!left", Val)
         w = dict(steps=str(steps))
         return [("raise:no-own-notifier-left-attached", z3.ForAll([x], st.ghost["own"][x] == 0), w),
